@@ -146,6 +146,12 @@ def corpus(tier, which):
             out.append(prog)
     if which == 'sets':
         out += sets_family()
+    else:
+        # programs with dates that have no exact binary representation, requested from different current times
+        import importlib as _il
+        c01 = _il.import_module('vk.checks.c01')
+        frac = [p for p in c01.cases('quick') if '0.9' in repr(p['roots']) or '0.7' in repr(p['roots'])]
+        out += frac[::max(1, len(frac) // (120 * div))]
     _CORPUS[key] = out
     return out
 
@@ -180,6 +186,9 @@ def digests_of(program):
     bounds = []
     ctx0 = run_one(program, (), observe=F.observer(bounds))
     d0, _ = digest(ctx0)
+    # the loop monitors (FIFO order of every time step, dates met exactly, no work skipped) belong to this property
+    monitor = [str(f)[:200] for f in ctx0.findings if f[0] in ('fifo-order', 'date-missed', 'work-skipped', 'clock-decreased',
+                                                                'unqueued-activation', 'work-left-at-end')]
     asserted = any(r[0] == 'exc' and isinstance(r[4], AssertionError) for r in ctx0.log) or isinstance(ctx0.outcome, AssertionError)
     h = hashlib.sha1(d0.encode())
     n = 1
@@ -188,10 +197,12 @@ def digests_of(program):
         for k, v in pts:
             ctx = run_one(program, [{'k': k, 'kind': 'cancel', 'victim': v, 'token': 'x'}])
             d, _ = digest(ctx)
+            monitor += [str(f)[:200] for f in ctx.findings if f[0] in ('fifo-order', 'date-missed', 'work-skipped', 'clock-decreased',
+                                                                       'unqueued-activation', 'work-left-at-end')][:2]
             asserted = asserted or any(r[0] == 'exc' and isinstance(r[4], AssertionError) for r in ctx.log)
             h.update(d.encode())
             n += 1
-    return [h.hexdigest()[:16], n, bool(asserted), d0]
+    return [h.hexdigest()[:16], n, bool(asserted), d0, monitor]
 
 
 # ---- driver ----------------------------------------------------------------------------------------
@@ -253,6 +264,10 @@ def run(tier, seed):
     compared = 0
     if not errors:
         base = res['base']
+        for i, v in sorted(base.items()):
+            if len(v) > 4 and v[4]:
+                violations.append({'part': 'monitor', 'index': i, 'program': prog_b[i], 'configs': ['base', 'base'],
+                                   'msgs': ['turn-order monitor: ' + m for m in v[4][:3]]})
         for name in confs:
             execs += sum(v[1] for v in res[name].values())
             if name == 'base':
@@ -290,7 +305,7 @@ def run(tier, seed):
     status = 0
     replay_root = os.environ.get('VERIF_REPLAY_DIR') or os.path.join(VERIF, 'replays')
     os.makedirs(os.path.join(replay_root, PROPERTY), exist_ok=True)
-    order = {'waitq': 0, 'sets': 1, 'config': 2}
+    order = {'waitq': 0, 'monitor': 1, 'sets': 2, 'config': 3}
     violations.sort(key=lambda v: (order[v['part']], v.get('index', 0)))
     shown = 0
     for v in violations:
@@ -341,6 +356,9 @@ def replay(case, faults):
     """re-run the one program under the two configurations / policies in fresh processes and compare"""
     if case['part'] == 'waitq':
         return waitq_search(12)[0]
+    if case['part'] == 'monitor':
+        from .. import run as vrun
+        return ['turn-order monitor: ' + m for m in digests_of(case['program'])[4]]
     if case['part'] == 'config' and any(c.startswith('heap') for c in case['configs']):
         # address-dependent: reproduce by running the very same shard of the corpus in the same two configurations
         lo, n, step = case['shard']
